@@ -1573,7 +1573,7 @@ impl Property for C11 {
             "Trusted base: the harness' own packet encoders (Ethernet II, 802.1Q/802.1ad tags, IPv4 header + checksum, IPv6 header, generic/fragment extension headers) and the interval-set reference model.".into(),
             "Stream identity = (VLAN ids in nesting order, IP version, source, destination, identification, protocol, channel id) as documented on IpFragId; TPID, PCP/DEI, MAC addresses, TTL/hop limit, DSCP/flow label, IPv4 options and IPv6 extension headers in front of the fragment header vary per delivery and must not matter.".into(),
             "Overlapping fragments always carry identical bytes (both cuts come from the same datagram), so overlap resolution order is not tested.".into(),
-            "After a delivery that returned Err on a stream that already had state, the crate does not document whether the partial state is kept; the model then stops predicting that stream (until it yields a payload or a retain evicts every timestamp it has seen) and only requires: unaligned / oversized fragments are still errors, and any payload returned has the stream's protocol, a length announced by a last fragment and exactly the pattern bytes of one generation delivered into that stream. Agreement with the hypothesis 'an Err leaves the stream untouched' is measured (distribution classes hypothesis(..):agrees/differs), not asserted.".into(),
+            "A rejected fragment (unaligned, oversized, or conflicting with the end already announced) must not influence any later result: the model keeps the stream state exactly as it was and stays strict ('inconsistent fragments are rejected ... nothing before the delivery that supplies the last missing byte'). The model only stops predicting a stream ('loose', until it yields a payload or a retain evicts every timestamp it has seen) in the cases the crate leaves undocumented and lists below; in loose mode it still requires: unaligned / oversized fragments are errors, and any payload returned has the stream's protocol, a length announced by a last fragment and exactly the pattern bytes of one generation delivered into that stream.".into(),
             "Tolerance: a last fragment announcing an end below data that is already buffered, a non-last fragment ending exactly at the announced end, and retain() predicates that judge the first and the latest timestamp of a stream differently are treated the same way (any verdict, later payloads must be sound).".into(),
             "A payload of up to 65,535 bytes (MAX_IP_DEFRAG_LEN) must reassemble even though an IPv4 datagram of that payload size could not exist (header room).".into(),
             "Zero-length fragments are treated like any other fragment (they fill nothing; a zero-length last fragment announces the end).".into(),
